@@ -32,7 +32,7 @@ RULE = ("seeded random pipelines (depth 1-4 from the %d-entry operator catalog w
         "called while an Observable.subscribe() call of the pipeline was still executing, and -- dispose point (c) only -- "
         "callbacks made before the stage-handler activation that hosts the disposing callback has returned); every source "
         "subscription closed at the dispose instant (or, when window/group probes were live, by the instant the last of "
-        "them ended) and none opened later and kept open (opened and closed in one instant = observation). When the "
+        "them ended) and none opened at a later instant, nor opened at the dispose instant and kept open (opened and closed within the dispose instant = observation). When the "
         "subscriber had already terminated before dispose() only silence is asserted. non-trivial = the subscriber had "
         "not terminated when dispose() was called; distinct = digest of (sources, pipeline with arguments, dispose point)"
         % len(CATALOG))
@@ -234,9 +234,12 @@ def judge(b: P.Built, top: Any, keep: list | None) -> dict | None:
     for key, sub, unsub in P.subscriptions(lab):
         excused = bool(live) and (unbounded or sub[1] <= L)
         if sub[0] > D and not excused:
-            if unsub is not None and unsub[1] == sub[1]:
+            if unsub is not None and unsub[1] == sub[1] and sub[1] <= TD:
+                # e.g. a stage that was being subscribed when dispose() was called from inside: opened and closed at the dispose instant
                 out["obs"]["sub_opened_and_closed_in_one_instant_after_dispose"] += 1
             else:
+                # opened and kept open, or opened at a LATER instant at all (a pending timer/trampoline action of the
+                # pipeline that dispose() should have cancelled subscribed a source for a subscriber that is gone)
                 out["problems"].append(("late-sub", "late-sub", (key, sub[1], None if unsub is None else unsub[1])))
             continue
         if unbounded:
@@ -356,7 +359,7 @@ def evaluate(seed: int, idx: int, keep: list | None, variant: tuple, res: UnitRe
     why = {"recv": "the subscriber received a notification after dispose() returned",
            "callback": "a user callback of the pipeline ran after dispose() returned",
            "leak": "a source subscription is still open after the dispose instant",
-           "late-sub": "a source was subscribed after dispose() returned and not closed in that instant"}[prob[0]]
+           "late-sub": "a source was subscribed after dispose() returned (at a later instant, or kept open)"}[prob[0]]
     res.violation(mech_of(b, kept, variant, prob),
                   {"why": why, "offending": show(prob[2]), "dispose_ret_seq": D, "dispose_time": j["TD"], "closure_deadline": j["L"],
                    "live_windows_at_dispose": j["live_windows"], "all_problems": [show((p[0], p[1])) for p in j["problems"][:8]],
